@@ -70,7 +70,12 @@ fn main() -> Result<(), String> {
 
     // TODO: should introduce a config object to gather options on the CLI etc.
     let max_drift_ppb = match args.max_drift_rate {
-        Some(rate) => rate * 1000,
+        // The rate is given in ppm but published in ppb. Refuse a value that does not fit rather
+        // than publishing a (much smaller) wrapped around drift rate to the clients.
+        Some(rate) => rate.checked_mul(1000).ok_or(format!(
+            "The maximum drift rate of {} ppm is too large to be expressed in ppb",
+            rate
+        ))?,
         None => {
             warn!("Using the default max drift rate of 1PPM, which is likely wrong. \
                   Update chrony configuration and clockbound to a value that matches your hardware.");
